@@ -7,6 +7,59 @@ Instrumented runs of the real theory translation (layers L3/L4), without touchin
 import contextlib
 import tl
 
+class _BackendProxy:
+    """records every statement the theory translation adds through clingo's backend"""
+    def __init__(self, b, log):
+        self._b, self._log = b, log
+    def add_atom(self, *a):
+        x = self._b.add_atom(*a)
+        self._log.append(("atom", x, str(a[0]) if a else None))
+        return x
+    def add_rule(self, head, body=(), choice=False):
+        self._log.append(("rule", tuple(head), tuple(body), bool(choice)))
+        return self._b.add_rule(head, body, choice)
+    def add_external(self, atom, value=None):
+        self._log.append(("external", atom, str(value)))
+        return self._b.add_external(atom, value) if value is not None else self._b.add_external(atom)
+    def __getattr__(self, name):
+        self._log.append(("other", name))
+        return getattr(self._b, name)
+
+class _PrgProxy:
+    def __init__(self, prg, log):
+        self._prg, self._log = prg, log
+    @contextlib.contextmanager
+    def backend(self):
+        with self._prg.backend() as b:
+            yield _BackendProxy(b, self._log)
+    def __getattr__(self, name):
+        return getattr(self._prg, name)
+
+def backend_shape(rec):
+    """
+    The hypothesis of the conservativity theorem (TelProofs.DefExt / C13): everything the translation of *body* formulas adds is
+    a fresh atom, a choice rule `{v}.` on a fresh atom, an external on a fresh atom, or an integrity constraint — nothing that
+    can derive or support an atom of the program.  Returns a list of offending statements.
+    """
+    fresh, bad = set(), []
+    for st in rec.get("backend", []):
+        if st[0] == "atom":
+            if st[2] is None:
+                fresh.add(st[1])
+        elif st[0] == "rule":
+            _, head, body, choice = st
+            if len(head) == 0 and not choice:
+                continue
+            if choice and len(body) == 0 and len(head) == 1 and head[0] in fresh:
+                continue
+            bad.append(st)
+        elif st[0] == "external":
+            if st[1] not in fresh:
+                bad.append(st)
+        else:
+            bad.append(st)
+    return bad
+
 @contextlib.contextmanager
 def instrumented(rec):
     import telingo, telingo.theory as ty, telingo.theory.body as bd
@@ -26,7 +79,7 @@ def instrumented(rec):
                 els.append(("elem", tl.dump_tterm(e.terms[0]) if len(e.terms) == 1 else ("t",), tuple(e.condition)))
             atoms.append((a.term.name, a.term.arguments[0].number, tuple(els), a.literal))
         rec["atoms"][horizon] = atoms
-        return orig_tt(self, horizon, prg)
+        return orig_tt(self, horizon, _PrgProxy(prg, rec.setdefault("backend", [])))
     bd.BodyFormula.translate = translate
     ty.Theory.translate = ttranslate
     try:
@@ -88,6 +141,11 @@ def check_equations(text, H, model_exe):
     """
     res, rec = run(text, H)
     dis = []
+    if not any(a[0] == "__tel_head" for hh in rec["atoms"] for a in rec["atoms"][hh]):
+        bad = backend_shape(rec)
+        if bad:
+            dis.append({"layer": "L4-shape", "text": text, "what": "the translation of body formulas added a statement that is neither a "
+                        "choice on a fresh atom, an external on a fresh atom nor an integrity constraint", "statements": [str(b) for b in bad[:5]]})
     npairs = neq = 0
     lines, hs = [], []
     for h in sorted(rec["vals"]):
@@ -137,7 +195,7 @@ def check_equations(text, H, model_exe):
                     bad.update({"layer": "L4", "text": text, "h": h})
                     dis.append(bad)
                     break
-    return {"pairs": npairs, "equations_evaluated": neq, "horizons": len(hs)}, dis
+    return {"pairs": npairs, "equations_evaluated": neq, "horizons": len(hs), "backend_statements": len(rec.get("backend", []))}, dis
 
 # --------------------------------------------------------------------------- head formulas (C04)
 
